@@ -144,6 +144,17 @@ def run_A(spec, acc):
                         check_reverse(p, r, key, prefix, acc)
             if i % 50 == k:
                 acc.sample({"pattern": p, "row": rs[len(rs) // 2], "ref_key": R.match(p, rs[len(rs) // 2])})
+    if k == 1 % n:
+        # first word merely *begins with* the negation word (notification / undoable / deleted ...): not a negated rule
+        for prefix in PREFIXES:
+            for first in (prefix + "x", prefix + "-a", prefix + prefix):
+                for tail in ("", " *", " a *", " * ~", " */[ab]+/"):
+                    p = first + tail
+                    for r in [first, first + " a", first + " a b", first + " b a c", prefix + " " + first + " a", prefix + " a", "x a"]:
+                        key = check_match(p, r, acc)
+                        acc.count("A_lookalike")
+                        if key is not None:
+                            check_reverse(p, r, key, prefix, acc)
     if k == 0:
         # flag, ellipsis and named-group classes
         for p0 in patterns(2):
@@ -170,8 +181,12 @@ def run_B(spec, acc):
     from annet import implicit
     maxtok = 2 if spec["tier"] == "quick" else 3
     pats = [p for p in patterns(maxtok)]
+    # column-aligned / tab-separated spellings and negation-word lookalikes go through the text compilers too
+    pats += ["c  a *", "c\tb  *", "undo   c a", "no  c\tb", "c   ~", "undox *", "nox a *", "notify *", "deleted *", "removex ~", "-x *"]
     text = "\n".join(pats)
     probe_rows = list(rows(3)) + ["undo " + r for r in rows(2)] + ["no " + r for r in rows(2)]
+    probe_rows += ["c a x", "c b y", "undo c a", "no c b", "c z z", "undox q", "nox a q", "notify q", "deleted q", "removex q r", "-x q",
+                   "undo undox q", "no nox a q", "no notify q", "delete deleted q", "remove removex q r", "- -x q", "x q", "ify q", "tify q", "c a", "a x"]
     for prefix, vendor in VENDOR_BY_PREFIX.items():
         comp = {
             "patching": compile_patching_text(text, vendor)["local"],
@@ -182,12 +197,16 @@ def run_B(spec, acc):
         }
         for p in pats:
             regs = {}
+            pc = " ".join(p.split())  # some compilers key their rules by the whitespace-normalised row
+            rule_of = {kind: (d[p] if p in d else d.get(pc)) for kind, d in comp.items()}
             try:
-                regs["patching"] = comp["patching"][p]["attrs"]["regexp"]
-                regs["acl"] = comp["acl"][p]["attrs"]["direct_regexp"]
-                regs["ordering"] = comp["ordering"][p]["attrs"]["direct_regexp"]
-                regs["deploying"] = comp["deploying"][p]["attrs"]["regexp"]
-                regs["implicit"] = comp["implicit"][p]["regexp"]
+                if any(v is None for v in rule_of.values()):
+                    raise KeyError([k for k, v in rule_of.items() if v is None])
+                regs["patching"] = rule_of["patching"]["attrs"]["regexp"]
+                regs["acl"] = rule_of["acl"]["attrs"]["direct_regexp"]
+                regs["ordering"] = rule_of["ordering"]["attrs"]["direct_regexp"]
+                regs["deploying"] = rule_of["deploying"]["attrs"]["regexp"]
+                regs["implicit"] = rule_of["implicit"]["regexp"]
             except KeyError as e:
                 acc.violation("C07/B/rule-lost", "a compiler lost a rule line of the shared text", {"pattern": p, "vendor": vendor, "err": repr(e)})
                 continue
@@ -211,14 +230,14 @@ def run_B(spec, acc):
                                   {"row": r, "expected_rule": first, "got_rule": got_first})
                 # reverse recognisers
                 e2 = R.match(exp_rp, r)
-                for kind, rx in (("acl", comp["acl"][p]["attrs"]["reverse_regexp"]), ("ordering", comp["ordering"][p]["attrs"]["reverse_regexp"])):
+                for kind, rx in (("acl", rule_of["acl"]["attrs"]["reverse_regexp"]), ("ordering", rule_of["ordering"]["attrs"]["reverse_regexp"])):
                     m = rx.match(r)
                     got = None if m is None else tuple(m.groups())
                     if got != e2:
                         acc.violation("C07/B/%s-reverse-recogniser" % kind, "reverse form of a %s rule does not recognise exactly the negated rows" % kind,
                                       {"pattern": p, "row": r, "vendor": vendor, "expected_key": e2, "got_key": got})
                 if exp is not None:
-                    got_rev = comp["patching"][p]["attrs"]["reverse"].format(*exp)
+                    got_rev = rule_of["patching"]["attrs"]["reverse"].format(*exp)
                     if got_rev != R.reverse(p, prefix, exp):
                         acc.violation("C07/B/reverse-template", "removal command template of a compiled patching rule is wrong",
                                       {"pattern": p, "row": r, "vendor": vendor, "expected": R.reverse(p, prefix, exp), "got": got_rev})
